@@ -8,6 +8,9 @@
 (*   negotiateFeatures       ->  ReadFeatures, Select*, Force (initiator)  *)
 (*                               Advertise, Await (receiver)               *)
 (*   StreamFeature.Negotiate ->  NegotiateCall / NegotiateRet              *)
+(*   StreamFeature.List      ->  ListFail (a List step reports an error)   *)
+(*   StreamFeature.Parse     ->  ReadFeaturesP(f) (the Parse step of f     *)
+(*                               reports an error)                         *)
 (*                                                                         *)
 (* The peer is an environment that appends items to the session's inbox;   *)
 (* the session consumes them in order.  Transport faults and cancellation  *)
@@ -42,7 +45,7 @@ VARIABLES
   cache,               \* features of the current list that were eligible when it was read/written
   negotiated,          \* features negotiated on the current stream
   fresh,               \* a stream header was exchanged since the last restart
-  failed,              \* some executed Negotiate step returned an error
+  failed,              \* some executed step (Negotiate, List or Parse of a feature) returned an error
   result,              \* "none" | "ok" | "err"
   cur,                 \* feature being negotiated / "none"
   last,                \* facts recorded when the last Negotiate step started
@@ -82,7 +85,7 @@ Fail == result' = "err" /\ phase' = "done"
 
 (* Control returns to the caller of NewSession/ReceiveSession with success. A       *)
 (* cancelled context or an earlier failed step must never end here (C04).           *)
-CanSucceed == ~cancelled /\ ~broken /\ (~failed \/ "SwallowVoluntaryError" \in Dev)
+CanSucceed == ~cancelled /\ ~broken /\ (~failed \/ Dev \cap {"SwallowVoluntaryError", "SwallowListError", "SwallowParseError"} # {})
 (* Control is about to return successfully with bits b; if it may not, the call fails *)
 (* and the session is not ready.                                                     *)
 Complete(b) == IF CanSucceed THEN bits' = b /\ result' = "ok" /\ phase' = "done"
@@ -180,21 +183,36 @@ Finish ==   \* nothing (more) to negotiate on this list: the session is ready
 
 ForceNow(c) == first /\ TLSId \in cfg /\ TLSId \notin c /\ "Secure" \notin bits
 
-ReadFeatures ==
+(* The switch of negotiateFeatures after a list L with eligible supported features c   *)
+(* has been read.                                                                       *)
+ReadList(L, c) ==
+  /\ list' = L /\ cache' = c /\ round' = round + 1 /\ first' = FALSE
+  /\ IF ForceNow(c) /\ "TeeDisablesForcedTLS" \notin Dev
+     THEN phase' = "force" /\ UNCHANGED <<bits, result>>
+     ELSE IF Len(L) = 0 THEN Finish
+     ELSE IF c = {} THEN Fail /\ UNCHANGED bits
+     ELSE phase' = "select" /\ UNCHANGED <<bits, result>>
+
+(* Reading a list runs the Parse step of every supported feature it names.  Each is a    *)
+(* negotiation step: if one reports an error (bad # "none") the call fails (C04).        *)
+ReadFeaturesP(bad) ==
   /\ Running /\ role = "init" /\ phase = "features" /\ inbox # <<>>
   /\ LET it == Head(inbox) IN
      /\ inbox' = Tail(inbox)
      /\ IF it.k = "features" /\ ~broken
         THEN LET L == it.list
                  c == {L[i].f : i \in {j \in Supported(L) : MasksHold(L[j].f, bits)}}
-             IN /\ list' = L /\ cache' = c /\ round' = round + 1 /\ first' = FALSE
-                /\ IF ForceNow(c) /\ "TeeDisablesForcedTLS" \notin Dev
-                   THEN phase' = "force" /\ UNCHANGED <<bits, result>>
-                   ELSE IF Len(L) = 0 THEN Finish
-                   ELSE IF c = {} THEN Fail /\ UNCHANGED bits
-                   ELSE phase' = "select" /\ UNCHANGED <<bits, result>>
-        ELSE Fail /\ UNCHANGED <<bits, list, cache, round, first>>
-  /\ UNCHANGED <<cfg, role, s2s, negotiated, fresh, failed, cur, last, estab, broken, cancelled, nsel>>
+             IN IF bad = "none"
+                THEN ReadList(L, c) /\ UNCHANGED failed
+                ELSE /\ \E i \in Supported(L) : L[i].f = bad
+                     /\ failed' = TRUE
+                     /\ IF "SwallowParseError" \in Dev
+                        THEN ReadList(L, c)      \* deviation: the error is dropped, the entry stands
+                        ELSE Fail /\ UNCHANGED <<bits, list, cache, round, first>>
+        ELSE bad = "none" /\ Fail /\ UNCHANGED <<bits, list, cache, round, first, failed>>
+  /\ UNCHANGED <<cfg, role, s2s, negotiated, fresh, cur, last, estab, broken, cancelled, nsel>>
+
+ReadFeatures == \E bad \in cfg \cup {"none"} : ReadFeaturesP(bad)
 
 (* Selection rule of the property: advertised and eligible when the list was read    *)
 (* (cache), not yet negotiated, negotiable, prerequisites hold NOW, voluntary first. *)
@@ -234,13 +252,33 @@ RECURSIVE SetToList(_)
 SetToList(S) == IF S = {} THEN <<>>
                 ELSE LET f == CHOOSE x \in S : TRUE IN <<[f |-> f, req |-> Kind(f).lreq]>> \o SetToList(S \ {f})
 
-Advertise ==
+(* Writing the advertisement runs the List step of every eligible feature.  Every List   *)
+(* step succeeds: the list is written and the receiver waits for a selection.            *)
+AdvertiseOK ==
   /\ Running /\ ~broken /\ role = "recv" /\ phase = "advertise"
   /\ LET c == {f \in cfg : MasksHold(f, bits)} IN
      /\ cache' = c /\ list' = SetToList(c)
   /\ round' = round + 1 /\ first' = FALSE /\ phase' = "await"
   /\ UNCHANGED <<cfg, role, s2s, bits, negotiated, fresh, failed, result, cur, last, inbox, estab,
                  broken, cancelled, nsel>>
+
+(* The List step of an eligible feature reports an error: a negotiation step has failed, *)
+(* the call fails (C04).  Code-like deviation: the error is overwritten (by the result   *)
+(* of closing the writer), the part of the list written so far stands as the             *)
+(* advertisement and negotiation goes on.                                                *)
+ListFail(bad) ==
+  /\ Running /\ role = "recv" /\ phase = "advertise"
+  /\ bad \in cfg /\ MasksHold(bad, bits)
+  /\ failed' = TRUE
+  /\ IF "SwallowListError" \in Dev
+     THEN /\ \E done \in SUBSET ({f \in cfg : MasksHold(f, bits)} \ {bad}) :
+               cache' = done /\ list' = SetToList(done)
+          /\ round' = round + 1 /\ first' = FALSE /\ phase' = "await" /\ UNCHANGED result
+     ELSE Fail /\ UNCHANGED <<cache, list, round, first>>
+  /\ UNCHANGED <<cfg, role, s2s, bits, negotiated, fresh, cur, last, inbox, estab,
+                 broken, cancelled, nsel>>
+
+Advertise == AdvertiseOK \/ \E bad \in cfg : ListFail(bad)
 
 Await ==
   /\ Running /\ role = "recv" /\ phase = "await" /\ inbox # <<>>
@@ -336,7 +374,8 @@ C01_OkMeansReady == result = "ok" => "Ready" \in bits
 C02_NoReadyInClear ==
   (role = "init" /\ TLSId \in cfg /\ \A f \in cfg \ {TLSId} : "Secure" \in Kind(f).nec)
      => (result = "ok" => "Secure" \in bits)
-(* C04: success only if nothing failed, nothing broke, nothing was cancelled.       *)
+(* C04: success only if no executed step (Negotiate, List, Parse) failed, nothing   *)
+(* broke, nothing was cancelled.                                                    *)
 C04_NoSwallow == result = "ok" => ~failed /\ ~broken /\ ~cancelled
 (* A failed establishment is not ready - unless a step that was executed successfully on *)
 (* this stream reported Ready itself before the failure (a voluntary feature whose mask   *)
